@@ -200,6 +200,11 @@ func Dict(t *rapid.T, depth, width int) *recipe.Node {
 			v = Tree(t, depth-1, width)
 		}
 		d.Pairs = append(d.Pairs, recipe.Pair{K: key, V: v})
+		if rapid.IntRange(0, 3).Draw(t, "samekeytext") == 0 {
+			// a second pair whose key is another Code value that renders the same text, with a value of its own
+			// (legal for non-constant keys; nonsense elsewhere — either way the rendering is a function of the pairs)
+			d.Pairs = append(d.Pairs, recipe.Pair{K: key.Clone(), V: recipe.Lit(rapid.SampledFrom([]string{"primary", "fallback", "third"}).Draw(t, "samekeyvalue"))})
+		}
 	}
 	return d
 }
@@ -240,7 +245,13 @@ func Expr(t *rapid.T, depth int) *recipe.Node {
 		var pairs []recipe.Pair
 		k := rapid.IntRange(0, 3).Draw(t, "nkv")
 		for i := 0; i < k; i++ {
-			pairs = append(pairs, recipe.Pair{K: recipe.Lit(rapid.SampledFrom([]string{"a", "b", "c", "d"}).Draw(t, "k") + strings.Repeat("_", i)), V: Expr(t, depth-1)})
+			suffix := strings.Repeat("_", i)
+			if rapid.IntRange(0, 2).Draw(t, "maydup") == 0 {
+				// (the key text may then repeat an earlier one: gofmt does not mind, and the output is still a
+				// function of the pairs)
+				suffix = ""
+			}
+			pairs = append(pairs, recipe.Pair{K: recipe.Lit(rapid.SampledFrom([]string{"a", "b", "c", "d"}).Draw(t, "k") + suffix), V: Expr(t, depth-1)})
 		}
 		return recipe.S().C("Map", recipe.S().C("String")).C("Interface").C("Values", recipe.Dict(pairs...))
 	case 8:
